@@ -40,8 +40,11 @@ Useful(o) == HasWork(o) \/ (o.op \in {"Put", "GC"} /\ o.crash = 0 /\ o.fail = 0)
 ModeOK(o) == o.op = "SetMode" => /\ (o.fault \in {"wc", "meta"} => ~NoMeta(o.m))
                                   /\ (o.fault = "wc" => S.hasWC)
                                   /\ Cardinality({i \in 1..Len(hist) : hist[i].op = "SetMode"}) < MaxSets
+\* while an explicit flush is paused only requests that may run concurrently with it are generated, without crashes
+HoldOK(o) == S.hold # 0 => /\ o.op \in {"Put", "Delete", "GC", "Mark", "Epoch", "FlushRelease"}
+                           /\ (o.op \in {"Put", "Delete", "GC"} => o.crash = 0)
 GenStep(o) ==
-  /\ Useful(o) /\ ModeOK(o)
+  /\ Useful(o) /\ ModeOK(o) /\ HoldOK(o)
   /\ hist' = Append(hist, o)
   /\ CASE o.op \in {"Put", "Delete", "GC", "Flush"} -> o.op \in Ops /\ (o.op = "Flush" => S.hasWC) /\ S' = RunOp(S, o)
        [] o.op = "Epoch"     -> S.epoch < MaxEpoch /\ S' = DoEpoch(S, S.epoch + 1)
@@ -50,6 +53,8 @@ GenStep(o) ==
        [] o.op = "Resync"    -> S' = DoResync(S, AscSeq({a \in Ids : S.blob[a]}))
        [] o.op = "Restart"   -> S' = DoCrash(S)
        [] o.op = "SetMode"   -> S' = DoSetMode(S, o.m, o.fault)
+       [] o.op = "FlushHold" -> CanHold(S, o.a) /\ S' = DoFlushHold(S, o.a, {})
+       [] o.op = "FlushRelease" -> S.hold # 0 /\ S' = DoFlushRelease(S, {x \in Ids : S.wc[x] /\ x # S.hold})
 
 GenAtomic ==
   (IF "Epoch" \in Ops THEN {[op |-> "Epoch"]} ELSE {})
@@ -58,6 +63,7 @@ GenAtomic ==
   \cup (IF "InhumeCnr" \in Ops THEN {[op |-> "InhumeCnr", c |-> c] : c \in {Cat[a].c : a \in Objs}} ELSE {})
   \cup (IF "Resync" \in Ops THEN {[op |-> "Resync"]} ELSE {})
   \cup (IF "Restart" \in Ops THEN {[op |-> "Restart"]} ELSE {})
+  \cup (IF "FlushRace" \in Ops THEN {[op |-> "FlushHold", a |-> a] : a \in Objs} \cup {[op |-> "FlushRelease"]} ELSE {})
   \cup (IF "SetMode" \in Ops THEN {[op |-> "SetMode", m |-> m, fault |-> f] : m \in Modes, f \in {"none"} \cup (Faults \cap {"wc", "blob", "meta"})} ELSE {})
 
 GenInit == Init /\ hist = <<>>
